@@ -10,10 +10,10 @@ SPEC = {
          'sinks': {'C02_lim': 'lim_judge'}, 'n': {'quick': 500, 'thorough': 40000}},
         {'pkg': 'commit/merkleroot', 'pkgname': 'merkleroot', 'fakes': True,
          'src': 'harness/commit/merkleroot/c02_test.go', 'test': 'TestVerif_C02_ranges',
-         'sinks': {'C02_rng': 'rng_judge'}, 'n': {'quick': 600, 'thorough': 30000}},
+         'sinks': {'C02_rng': 'rng_judge'}, 'n': {'quick': 500, 'thorough': 30000}},
         {'pkg': 'commit/merkleroot', 'pkgname': 'merkleroot', 'fakes': True,
          'src': 'harness/commit/merkleroot/c02_test.go', 'test': 'TestVerif_C02_roots',
-         'sinks': {'C02_roots': 'roots_judge'}, 'n': {'quick': 600, 'thorough': 30000}},
+         'sinks': {'C02_roots': 'roots_judge'}, 'n': {'quick': 500, 'thorough': 30000}},
     ],
     'known': {'2': 'F01b'},
     'rule': 'lim: fixed 19x19x10 boundary grid {0..3,254..258,2^63-1..2^63+1,2^64-258..2^64-255,2^64-3..2^64-1}^2 x '
